@@ -36,7 +36,7 @@ type config struct {
 
 var typePool = map[string]reflect.Type{"int64": reflect.TypeOf(int64(0)), "string": reflect.TypeOf(""), "bool": reflect.TypeOf(true)}
 
-var opKinds = []string{"Define", "Set", "Get", "Delete", "DeleteGlobal", "Copy", "Symbols", "DefineType", "Type", "TypeSymbols", "String", "Get", "Set", "Define"}
+var opKinds = []string{"Define", "Set", "Get", "Delete", "DeleteGlobal", "Copy", "DeepCopy", "Symbols", "DefineType", "Type", "TypeSymbols", "String", "Get", "Set", "Define"}
 
 // ---- sequential model ----
 
@@ -116,7 +116,7 @@ var model = porcupine.Model{
 		case "Delete", "DeleteGlobal":
 			delete(st.vals, in.Key)
 			return out == "ok", encode(st.vals, st.types)
-		case "Copy", "Final":
+		case "Copy", "DeepCopy", "Final":
 			return out == state.(string), state
 		case "Symbols":
 			return out == symbols(st.vals), state
@@ -192,6 +192,9 @@ func execOp(shared *env.Env, o op) string {
 	case "Copy":
 		// the copy is private to this goroutine: reading it back is not a concurrent operation
 		c := shared.Copy()
+		return dump(c)
+	case "DeepCopy":
+		c := shared.DeepCopy()
 		return dump(c)
 	case "Symbols":
 		s := shared.GetValueSymbols()
